@@ -451,11 +451,14 @@ def run(chk, replay=None):
 # ------------------------------------------------------------------ real processes (OS-level smoke scenarios)
 REAL = [
     {"name": "burst", "init": 2, "max": 3, "timeout": 3,
-     "ops": [{"op": "req", "sleep": 300, "n": 7}, {"op": "join"}, {"op": "settle", "ms": 8000}],
+     "ops": [{"op": "req", "sleep": 300, "n": 7}, {"op": "join"}, {"op": "settle", "ms": 8000},
+             # workers that sat idle for longer than --timeout serve a request that is well within it
+             {"op": "wait", "ms": 3600}, {"op": "req", "sleep": 400, "n": 2}, {"op": "join"}],
      "all_ok": True},
     {"name": "timeout-last-worker", "init": 1, "max": 1, "timeout": 1,
      "ops": [{"op": "req", "sleep": 3000, "n": 1}, {"op": "join"}, {"op": "settle", "ms": 8000},
-             {"op": "req", "sleep": 10, "n": 1}, {"op": "join"}],
+             # the replacement worker sits idle for longer than --timeout, then serves a request well within it
+             {"op": "wait", "ms": 1600}, {"op": "req", "sleep": 350, "n": 1}, {"op": "join"}],
      "ok_tokens": ["t2"], "lost_tokens": ["t1"]},
     {"name": "timeout-others-undisturbed", "init": 2, "max": 2, "timeout": 1,
      "ops": [{"op": "req", "sleep": 4000, "n": 1}, {"op": "wait", "ms": 700}, {"op": "req", "sleep": 450, "n": 1},
